@@ -106,6 +106,7 @@ def st_async_case(draw: st.DrawFn, tier: str) -> dict:
         "proto": draw(st.sampled_from(["tcp", "udp"])),
         "ops": draw(st_ops(16)),
         "factory_yields": draw(st.sampled_from([0, 0, 1, 2, 3, 5])),
+        "factory_shielded": draw(st.booleans()),
         "listener_aclose_yields": draw(st.sampled_from([0, 1, 1, 2, 4])),
         "service_init_yields": draw(st.sampled_from([0, 0, 1, 2, 4])),
         "service_exit_yields": draw(st.sampled_from([0, 0, 1, 3])),
@@ -413,8 +414,16 @@ async def _async_main(case: dict) -> dict:
     backend = Backend()
 
     async def factory_hook() -> None:
-        for _ in range(fy):
-            await asyncio.sleep(0)
+        async def yields() -> None:
+            for _ in range(fy):
+                await asyncio.sleep(0)
+
+        if case.get("factory_shielded") and fy:
+            # like the real backend, whose listener creation resolves the addresses inside AsyncBackend.gather(), a
+            # cancel-shielded await with no further checkpoint before the sockets exist (numeric hosts)
+            await backend.ignore_cancellation(yields())
+        else:
+            await yields()
 
     backend.listener_factory_hook = factory_hook
     srv = _make_async_server(case, backend)
